@@ -372,6 +372,8 @@ def windows_for(rng, times, quick):
     cands = [None]
     for t in times:
         cands += [t - 1000, t, t + 1000]
+        # bounds taken from a clock have a sub-millisecond part; file times have none
+        cands += [t - 1, t + 1, t + 400]
     cands += [0, times[0] - 5 * 10 ** 9 if times else 1, (times[-1] + 5 * 10 ** 9) if times else 2]
     cands = sorted(set(c for c in cands if c is not None)) + [None]
     pairs = set()
